@@ -26,11 +26,24 @@ class Frame(object):
         return f
 
 
+TABLE_EPOCH = [0]     # bumped whenever a lookup-table array constant is introduced: older models do not interpret it
+
+
 class State(object):
+    @property
+    def model(s):
+        if s._model is not None and s._mepoch != TABLE_EPOCH[0]:
+            s._model = None
+        return s._model
+
+    @model.setter
+    def model(s, m):
+        s._model = m; s._mepoch = TABLE_EPOCH[0]
+
     def __init__(s):
         s.objs = {}; s.owned = set(); s.nextobj = 1
         s.pc = []; s.frames = []; s.inputs = []; s.notes = []
-        s.decisions = []; s.pending = []; s.model = None
+        s.decisions = []; s.pending = []; s._model = None; s._mepoch = 0
         s.steps = 0; s.reach = set(); s.ubnotes = []
         s.env = {}          # environment-model state (clock, stubs ...), values must be immutable or copied by env_copy
         s.nfresh = 0
@@ -43,7 +56,7 @@ class State(object):
         n.nextobj = s.nextobj; n.pc = list(s.pc)
         n.frames = [f.clone() for f in s.frames]
         n.inputs = list(s.inputs); n.notes = list(s.notes)
-        n.decisions = list(s.decisions); n.pending = list(s.pending); n.model = s.model
+        n.decisions = list(s.decisions); n.pending = list(s.pending); n._model = s._model; n._mepoch = s._mepoch
         n.steps = s.steps; n.reach = set(s.reach); n.ubnotes = list(s.ubnotes)
         n.env = {k: (list(v) if isinstance(v, list) else dict(v) if isinstance(v, dict) else v) for k, v in s.env.items()}
         n.nfresh = s.nfresh; n.baseline = s.baseline
@@ -90,6 +103,7 @@ class Engine(object):
         builtins_sym.register(s)
         s.st0 = None
         s.table_cache = {}
+        s.table_axioms = []
         s.simp = False
         s.sample_every = 1
         s.maxsamples = 8
@@ -108,7 +122,7 @@ class Engine(object):
         for c in pc[k:]:
             s.solver.push(); s.solver.add(c); sp.append(c)
 
-    def check(s, st, extra=None):
+    def check(s, st, extra=None, want_model=True):
         """-> ('sat', model) | ('unsat', None) | ('unknown', None)"""
         t = time.time()
         s._sync(st.pc)
@@ -117,7 +131,8 @@ class Engine(object):
         r = s.solver.check()
         m = None
         if r == z3.sat:
-            m = s.solver.model(); res = 'sat'; s.nq_sat += 1
+            m = s.solver.model() if want_model else None
+            res = 'sat'; s.nq_sat += 1
         elif r == z3.unsat:
             res = 'unsat'; s.nq_unsat += 1
         else:
@@ -165,14 +180,36 @@ class Engine(object):
                     st.model = None
             return side
         s._mark(st)
-        m = s.model_of(st)
+        # models that contain big lookup tables are expensive to extract: then decide by two plain checks
+        lazy = bool(s.table_axioms)
+        m = st.model
+        if m is None and not lazy:
+            m = s.model_of(st)
+        if m is None:
+            r1, _ = s.check(st, c, False)
+            if r1 == 'unknown':
+                s.inconclusive.append("solver unknown at branch in %s" % s.where(st)); r1 = 'unsat'
+            if r1 == 'unsat':
+                st.decisions.append(0 | 2); return False
+            r2, _ = s.check(st, z3.Not(c), False)
+            if r2 == 'unknown':
+                s.inconclusive.append("solver unknown at branch in %s" % s.where(st)); r2 = 'unsat'
+            if r2 == 'unsat':
+                st.decisions.append(1 | 2); return True
+            s._sibling(st, 0, None)
+            st.decisions.append(1)
+            st.pc.append(c)
+            return True
         v = m.eval(c, model_completion=True)
         side = z3.is_true(v)
         if not side and not z3.is_false(v):
             v = z3.simplify(v); side = z3.is_true(v)
+            if not side and not z3.is_false(v):
+                st.model = None
+                return s.decide(st, c)
         me = c if side else z3.Not(c)
         other = z3.Not(c) if side else c
-        r, m2 = s.check(st, other)
+        r, m2 = s.check(st, other, not lazy)
         if r == 'unknown':
             s.inconclusive.append("solver unknown at branch in %s" % s.where(st))
             r = 'unsat'
@@ -369,7 +406,7 @@ class Engine(object):
                         return PInt(x)
             if any(c is None for c in cells):
                 if all(c is None for c in cells):
-                    return Undef(w)
+                    return Undef(w, True)
                 # partially initialised: keep defined bytes, undefined ones become fresh unconstrained bytes
                 s.ubnote(st, 'load of partially uninitialised %d-byte value' % n)
                 cells = [s.fresh(st, 8) if c is None else c for c in cells]
@@ -388,7 +425,7 @@ class Engine(object):
                 if all(c.__class__ is tuple and c[0] is x and c[1] == i for i, c in enumerate(cells)):
                     return x
             if all(c is None for c in cells):
-                return Undef(64)
+                return Undef(64, True)
             try:
                 v = int.from_bytes(bytes(cells), 'little')
                 return NULL if v == 0 else Ptr(0, v)
@@ -461,12 +498,16 @@ class Engine(object):
             key = (raw, n, w, start, step)
             arr = s.table_cache.get(key)
             if arr is None:
+                # a named array constant whose contents are asserted once at the solver's base level
                 ws = 1 if w == 1 else w
-                arr = z3.K(z3.BitVecSort(64), z3.BitVecVal(0, ws))
-                for i in cands:
-                    v = int.from_bytes(raw[i:i + n], 'little') & mask(w)
-                    if v: arr = z3.Store(arr, z3.BitVecVal(i, 64), z3.BitVecVal(v, ws))
+                arr = z3.Array('tbl%d_%s' % (len(s.table_cache), o.name.strip('@')[:24]), z3.BitVecSort(64), z3.BitVecSort(ws))
+                ax = [z3.Select(arr, z3.BitVecVal(i, 64)) == z3.BitVecVal(int.from_bytes(raw[i:i + n], 'little') & mask(w), ws) for i in cands]
                 s.table_cache[key] = arr
+                s.table_axioms.extend(ax)
+                TABLE_EPOCH[0] += 1
+                if s.solver_pc:
+                    s.solver.pop(len(s.solver_pc)); del s.solver_pc[:]
+                s.solver.add(*ax)
             r = z3.Select(arr, off)
             return (r == 1) if w == 1 else r
         e = None
@@ -794,6 +835,8 @@ def _jump(st, fr, bi, moves):
 
 def _mat(e, st, v, w):
     """materialise an Undef into a fresh unconstrained value (indeterminate value semantics)"""
+    if v.mem:
+        raise Violation('uninit', "control flow or address depends on uninitialised memory")
     e.ubnote(st, 'use of uninitialised/undef value')
     if w == 1:
         return e.fresh(st, 1) == 1
@@ -804,7 +847,7 @@ def _binprep(e, st, a, b, w, op):
     """common slow path for integer binops: returns (A, B) as z3 terms or raises; or ('done', value)"""
     ca = a.__class__; cb = b.__class__
     if ca is Undef or cb is Undef:
-        return (DONE, Undef(w))
+        return (DONE, Undef(w, (ca is Undef and a.mem) or (cb is Undef and b.mem)))
     if ca is PInt or cb is PInt or ca is Ptr or cb is Ptr:
         return (DONE, _ptrarith(e, st, op, a, b, w))
     if ca is Agg or cb is Agg:
@@ -817,53 +860,23 @@ def _binprep(e, st, a, b, w, op):
 def _ptrarith(e, st, op, a, b, w):
     if a.__class__ is Ptr: a = PInt(a)
     if b.__class__ is Ptr: b = PInt(b)
-    if op == 'sub' and a.__class__ is PInt and b.__class__ is PInt:
-        pa, pb = a.p, b.p
-        if pa.__class__ is Ptr and pb.__class__ is Ptr and pa.obj == pb.obj:
-            d = pa.off - pb.off
-            if d.__class__ is int: return d & mask(w)
-            return z3.simplify(d)
-        raise Violation('memory', "subtraction of pointers into different objects")
-    if a.__class__ is PInt and op in ('add', 'sub') and b.__class__ is not PInt and a.p.__class__ is Ptr:
-        if b.__class__ is int:
-            d = sx(b, w)
-            return PInt(Ptr(a.p.obj, a.p.off + (d if op == 'add' else -d)))
-        return PInt(Ptr(a.p.obj, a.p.off + (b if op == 'add' else -b)))
-    if b.__class__ is PInt and op == 'add' and a.__class__ is int and b.p.__class__ is Ptr:
-        return PInt(Ptr(b.p.obj, b.p.off + sx(a, w)))
-    if op == 'and' and a.__class__ is PInt and b.__class__ is int and a.p.__class__ is Ptr:
+    if w == 64:
+        if op == 'add': return pint_lin(a, b, 1, 1)
+        if op == 'sub': return pint_lin(a, b, 1, -1)
+        if op == 'xor' and b.__class__ is int and b == mask(64):      # ~x = -x - 1
+            return pint_lin(a, 1, -1, -1)
+        if op == 'xor' and a.__class__ is int and a == mask(64):
+            return pint_lin(b, 1, -1, -1)
+        if op == 'mul' and b.__class__ is int and sx(b, 64) in (1, -1): return pint_lin(a, 0, sx(b, 64), 0)
+    if op == 'and' and a.__class__ is PInt and b.__class__ is int and len(a.co) == 1 and a.co[0][1] == 1:
         # alignment tests: objects are 16-aligned in this model
-        if b < 16 and a.p.off.__class__ is int:
-            return a.p.off & b
-    if op in ('and', 'or', 'xor') and a.__class__ is PInt and a.p.__class__ is Ptr and a.p.obj == 0:
-        return _ptrarith(e, st, op, a.p.off, b, w)
-    # e.g. the speculatively computed (NULL - p) of "c ? c - p : -1": the numeric value of an address is not
-    # modelled; the result is an indeterminate value (any use in a branch/address is reported as a UB note)
+        if b < 16 and a.off.__class__ is int:
+            return a.off & b
+    if op in ('and', 'or', 'xor') and a.__class__ is PInt and a.co == ((0, 1),):
+        return _ptrarith(e, st, op, a.off, b, w)
+    # the numeric value of an address is not modelled: the result is an indeterminate value (any use in a
+    # branch/address is reported as a UB note)
     return Undef(w)
-
-
-def _acnorm(kind, mk, A, B):
-    """AC-normal form: flatten nested applications of the same operator and order operands by AST id, so that
-    two computations of the same sum/xor in different association/order build the identical (hash-consed) term"""
-    terms = []
-    todo = [B, A]
-    while todo:
-        x = todo.pop()
-        if z3.is_app_of(x, kind): todo.extend(x.children())
-        else: terms.append(x)
-    consts = [t for t in terms if z3.is_bv_value(t)]
-    if len(consts) > 1:
-        w = consts[0].size(); m = (1 << w) - 1
-        acc = consts[0].as_long()
-        for t in consts[1:]:
-            v = t.as_long()
-            acc = ((acc + v) & m) if kind == z3.Z3_OP_BADD else (acc ^ v) if kind == z3.Z3_OP_BXOR else (acc & v) if kind == z3.Z3_OP_BAND else (acc | v)
-        terms = [t for t in terms if not z3.is_bv_value(t)] + [z3.BitVecVal(acc, w)]
-    terms.sort(key=lambda t: t.get_id())
-    r = terms[0]
-    for t in terms[1:]:
-        r = mk(r, t)
-    return r
 
 
 def _small(x, d=5):
@@ -1053,8 +1066,13 @@ def icmp(e, st, pred, w, a, b):
     ca = a.__class__; cb = b.__class__
     if ca is Undef: a = _mat(e, st, a, w or 64); ca = a.__class__
     if cb is Undef: b = _mat(e, st, b, w or 64); cb = b.__class__
-    if ca is PInt: a = a.p; ca = a.__class__
-    if cb is PInt: b = b.p; cb = b.__class__
+    if ca is PInt or cb is PInt:
+        if pred in ('eq', 'ne') or (ca is PInt and cb is PInt):
+            d = pint_lin(a if ca is not Ptr else PInt(a), b if cb is not Ptr else PInt(b), 1, -1)
+            if d.__class__ is not PInt:
+                return icmp(e, st, pred, 64, d, 0) if pred in ('eq', 'ne') else icmp(e, st, {'ult': 'slt', 'ule': 'sle', 'ugt': 'sgt', 'uge': 'sge'}.get(pred, pred), 64, d, 0)
+        if ca is PInt: a = a.p; ca = a.__class__
+        if cb is PInt: b = b.p; cb = b.__class__
     if ca in (Ptr, FnPtr) or cb in (Ptr, FnPtr):
         if ca is int: a = Ptr(0, a); ca = Ptr
         if cb is int: b = Ptr(0, b); cb = Ptr
@@ -1121,12 +1139,9 @@ def h_trunc(e, st, fr, ins):
     v = fr.regs[ins[4]]; tw = ins[3]
     c = v.__class__
     if c is int: r = v & ((1 << tw) - 1)
-    elif c is Undef: r = Undef(tw)
+    elif c is Undef: r = Undef(tw, v.mem)
     elif c is PInt:
-        if tw >= 32 and v.p.__class__ is Ptr and v.p.obj == 0:
-            r = v.p.off & mask(tw) if v.p.off.__class__ is int else z3.Extract(tw - 1, 0, v.p.off)
-        else:
-            raise Inconclusive("truncation of a pointer value")
+        r = Undef(tw)     # low bits of an address: not modelled (indeterminate)
     else:
         r = e.S(z3.Extract(tw - 1, 0, v))
         if tw == 1: r = e.S(r == 1)
@@ -1138,7 +1153,7 @@ def h_zext(e, st, fr, ins):
     v = fr.regs[ins[4]]; fw = ins[2]; tw = ins[3]
     c = v.__class__
     if c is int: r = v
-    elif c is Undef: r = Undef(tw)
+    elif c is Undef: r = Undef(tw, v.mem)
     elif isinstance(v, z3.BoolRef): r = z3.If(v, z3.BitVecVal(1, tw), z3.BitVecVal(0, tw))
     elif c is PInt: r = v
     else: r = z3.ZeroExt(tw - fw, v)
@@ -1149,7 +1164,7 @@ def h_sext(e, st, fr, ins):
     v = fr.regs[ins[4]]; fw = ins[2]; tw = ins[3]
     c = v.__class__
     if c is int: r = sx(v, fw) & ((1 << tw) - 1)
-    elif c is Undef: r = Undef(tw)
+    elif c is Undef: r = Undef(tw, v.mem)
     elif isinstance(v, z3.BoolRef): r = z3.If(v, z3.BitVecVal(mask(tw), tw), z3.BitVecVal(0, tw))
     elif c is PInt: r = v
     else: r = z3.SignExt(tw - fw, v)
